@@ -304,6 +304,8 @@ def main(tier):
         c17.rule_B(ck, {name: u})   # the system matrix handed over by shared pointer is never modified
         if name == 'rt_builtin':
             rule_E(ck, {name: u})
+            import c07
+            c07.rule_zero(ck, {name: u}, floor=8)   # re-initialisation through zero-coefficient primitives really overwrites (even NaN / Inf left by a failed call; shared with C07)
         if name in ('rt_builtin', 'mpi_rt'):
             import c02
             c02.rule_AB(ck, {name: u})   # per-level scratch of the multigrid cycle is history-free (shared with C02)
